@@ -105,7 +105,7 @@ def run(ctx):
                                   # refreshes through the real snapstate.Update + task runner (link-snap)
                                   ("realrefresh", "TraceRefreshHold.cfg", ctx.pick(6, 80), 14),
                                   # whole gate-auto-refresh hook runs: real hook handler + real snapctl refresh --hold/--proceed
-                                  ("hookrun", "TraceRefreshHold.cfg", ctx.pick(40, 1500), 14)):
+                                  ("hookrun", "TraceRefreshHold.cfg", ctx.pick(60, 1500), 14)):
         if violations:
             break       # already decided
         out = os.path.join(tdir, "hold_%s.ndjson" % mode)
@@ -151,6 +151,8 @@ def run(ctx):
         raise InfraError("vacuity guard: real executions too thin: %s" % totals)
 
     violations = _dedupe(violations)
+    if not samples and violations:
+        samples = [{"violating_case": violations[0].key}]
     return Result(
         level="model_checking",
         coverage={
